@@ -15,6 +15,13 @@ Sequencing is spelled with the combinators of lean/TonVerif/PyBits.lean:
     Py.bindO (partial built-in) self fun x => rest
     Py.zoom (callee args self.attr) (fun v => { self with attr := v })      a method of the sub-object held in `attr`
     Py.forS xs self (fun x self => body)      a `for` loop whose body only changes the state
+    Py.forL xs self acc (fun x self acc => body)     a `for` loop whose body rebinds ONE outer local (loop-carried; its type is
+                                              inferred: `None` before the loop + a value in the body -> Option)
+    Py.whileS fuel self accs (fun self accs => body)  `while True:` with loop-carried locals and a `return` inside; `fuel` (an
+                                              extra parameter of the method and of its callers) is the DECLARED bound on the number
+                                              of iterations - no loop variant is visible in the source
+    Py.bindA (callee args) x self fun x self r => rest   a call on a local that is an alias of self (`x = self`) or, after
+                                              `x = <new object>`, an object of its own (`Option σ`: none = the alias)
 Everything outside the subset raises `Untranslatable` (the caller records the tie as 'lost'; never a violation by itself).
 
 SUBSET (in addition to the expressions of pyobj.py / pybytes.py / pyarith.py)
@@ -57,8 +64,9 @@ class SProgram(Program):
     """classes: see the module docstring.  poly = {(class, method)}: methods that are instantiated at several argument types
     (their Lean names always carry a type suffix); main = the class whose methods are named without a prefix."""
 
-    def __init__(self, classes, main, poly=(), externs=None, src='', sigs=None):
+    def __init__(self, classes, main, poly=(), externs=None, src='', sigs=None, reuse=None):
         super().__init__(classes, hashlib=None, bitarray=None, src=src)
+        self.reuse = reuse                 # (owner, name, argtypes) -> info of a definition of ANOTHER generated file (same classes), or None
         self.main = main
         self.sigs = dict(sigs or {})       # (class, method) -> declared argument types (call sites are coerced: Nat -> Int)
         self.poly = set(poly)
@@ -74,6 +82,8 @@ class SProgram(Program):
             return 'Unit'
         if t == SELF or t == NONE:
             return 'Unit'
+        if t.startswith('cur:'):
+            return f'Option {tpar(self.classes[t[4:]]["state"])}'
         if is_opt(t):
             return f'Option {tpar(self.lean_ty(opt_of(t)))}'
         if t.startswith('union:'):
@@ -134,6 +144,11 @@ class SProgram(Program):
         key = (owner, name, tuple(argtypes))
         if key in self.done:
             return self.done[key]
+        if self.reuse is not None:
+            info = self.reuse(owner, name, tuple(argtypes))
+            if info is not None:
+                self.done[key] = info
+                return info
         if (owner, name) in self.stack:
             raise Untranslatable(f'recursive method {owner}.{name}')
         base = lname(name.strip('_') if name.startswith('__') else name)
@@ -185,12 +200,15 @@ class STr(MTr):
         self.loops = []
         self.in_prop = []
         self.uses_mk = False          # the cell constructor `mk` (a parameter) is used, directly or by a callee
+        self.uses_view = False        # `view` (what `<cell>.begin_parse()` reads of a referenced cell; a parameter) is used
+        self.uses_fuel = False        # the method (or a callee) has a `while True` loop: the declared iteration bound `fuel`
+        self.whiles = 0               # > 0 inside the body of a `while True` (a `return` leaves the loop: Sum.inr)
         self.mutates = False          # the method changes the state of self
         self.cond = 0                 # > 0 while the test of an if / assert is translated (numbers in and / or mean "non-zero")
         self.flags = {}               # local name -> True / False while it holds that literal (decides `if flag:` statically)
         self.unwrapped = {}           # source text of an optional expression -> (lean name, type) inside `if <expr> is not None`
         for n in ast.walk(fn):
-            if isinstance(n, (ast.FunctionDef, ast.Lambda, ast.Global, ast.Nonlocal, ast.While, ast.Try, ast.With, ast.Break, ast.Continue, ast.Yield,
+            if isinstance(n, (ast.FunctionDef, ast.Lambda, ast.Global, ast.Nonlocal, ast.Try, ast.With, ast.Break, ast.Continue, ast.Yield,
                               ast.YieldFrom, ast.Await, ast.NamedExpr, ast.Starred)) and n is not fn:
                 raise Untranslatable(f'{fn.name}: {type(n).__name__}')
             if isinstance(n, ast.Name) and isinstance(n.ctx, (ast.Store, ast.Del)) and (n.id in ('self', 'R') or n.id.endswith('_start') or n.id.endswith('_stop')):
@@ -302,6 +320,9 @@ class STr(MTr):
             if e.value and set(e.value) <= {'0', '1'}:
                 return '[' + ', '.join('true' if c == '1' else 'false' for c in e.value) + ']', BITS
             raise Untranslatable('string constant')
+        if isinstance(e, ast.Name) and e.id in self.env and self.env[e.id].startswith('cur:'):
+            self.reads += 1           # the local may be an alias of self
+            return f'(Py.curOf {lname(e.id)} self)', OBJ(self.env[e.id][4:])
         if isinstance(e, ast.Name) and e.id in self.env and self.env[e.id] not in (POISON, BOOL):
             return lname(e.id), self.env[e.id]
         if isinstance(e, ast.IfExp) and not self.nohoist and ast.dump(e.test) != ast.dump(e.body):
@@ -369,6 +390,16 @@ class STr(MTr):
             self.pre, self.fresh, self.reads = save[0], save[1], save[2]
         return super().expr(e)
 
+    def binop(self, e):
+        if isinstance(e.op, (ast.FloorDiv, ast.Mod)) and isinstance(e.right, ast.Constant) and isinstance(e.right.value, int) \
+                and not isinstance(e.right.value, bool) and e.right.value > 0:
+            save = (list(self.pre), self.fresh, self.reads)
+            l = self.num(self.expr(e.left))
+            if l[1] == INT:         # Python floors; for a positive divisor that is Lean's Int `/` and `%` (Euclidean)
+                return f'({l[0]} {"/" if isinstance(e.op, ast.FloorDiv) else "%"} ({e.right.value} : Int))', INT
+            self.pre, self.fresh, self.reads = save
+        return super().binop(e)
+
     def attribute(self, e):
         v = e.value
         if is_self(v):
@@ -423,6 +454,11 @@ class STr(MTr):
                 return f'(Py.slice {base} {lo if lo is not None else 0} {hi})', BITS
             i = self.index_nat(s, 'index')
             return self.hoist(f'Py.bitAt? {base} (({i} : Nat) : Int)', 'bit'), NAT
+        if bt == BYTES and isinstance(s, ast.Slice) and s.step is None:
+            bs = [None if b is None else self.num(self.expr(b)) for b in (s.lower, s.upper)]
+            if any(b is not None and b[1] == INT for b in bs):      # a bound that may be negative: Python's rule (Py.sliceI)
+                lo, hi = ['none' if b is None else f'(some {self.cast(b)})' for b in bs]
+                return f'(Py.sliceI {base} {lo} {hi})', BYTES
         self.pre, self.fresh, self.reads = save
         return super().subscript(e)
 
@@ -509,7 +545,7 @@ class STr(MTr):
         if c.get('via') == 'mk':
             # the constructor is a PARAMETER of the translation (it may raise): `mk bits refs`
             self.uses_mk = True
-            return self.hoist('mk ' + ' '.join(par(i.split(' := ', 1)[1]) for i in items), 'cell'), OBJ(cname)
+            return self.hoist('mk ' + ' '.join(par(i.split(' := ', 1)[1]) for i in items), 'cell'), c.get('type', OBJ(cname))
         items += [f'{k} := {v}' for k, v in c.get('rest', {}).items()]
         return f'({{ {", ".join(items)} }} : {d["lean"]})', OBJ(cname)
 
@@ -568,6 +604,23 @@ class STr(MTr):
                 fld = self.decl['fields'][attr]
                 self.mutate('set', None, f'{{ self with {fld} := self.{fld} ++ [{x}] }}')
                 return '()', NONE
+        if isinstance(v, ast.Name) and self.env.get(v.id, '').startswith('cur:'):
+            # a method of a local that is an alias of self or an object of its own
+            cls = self.env[v.id][4:]
+            args = self.fit_args(cls, f.attr, self.with_defaults(cls, f.attr, self.typed_args(e)))
+            info = self.prog.method(cls, f.attr, [t for _, t in args])
+            if r0:
+                raise Untranslatable('self is read before a mutating call in the same statement')
+            if self.nohoist:
+                raise Untranslatable('a call on a local object occurs where Python evaluates it conditionally')
+            term = f'{self.callee(info)} {" ".join(par(x) for x, _ in args)}'.rstrip()
+            x = self.tmp('r') if info['ret'] not in (SELF, NONE) else '_u'
+            self.pre.append(('bindA', (lname(v.id), x), term))
+            self.mutates = True
+            self.reads = 0
+            if info['ret'] in (SELF, NONE):
+                return '()', NONE            # (`x.m(..)` returning x itself is not bound to another name)
+            return ((f'({x} = true)', PROP) if info['ret'] == BOOL else (x, info['ret']))
         if isinstance(v, ast.Name) and self.env.get(v.id, '').startswith('obj:') and v.id not in self.py_params:
             st = self.prog.classes[self.env[v.id][4:]].get('setters', {}).get(f.attr)
             if st is not None and not e.keywords and len(e.args) == len(st['args']):
@@ -587,10 +640,15 @@ class STr(MTr):
         base, bt = self.expr(v)
         if bt == BITS and f.attr == 'tobytes' and not e.args and not e.keywords:
             return f'(bitsToBytes {base})', BYTES
+        rm = (self.prog.externs.get('ref_methods') or {}).get(f.attr)
+        if bt == REF and rm is not None and not e.args and not e.keywords:
+            # declared: what `<cell>.begin_parse()` reads of a referenced cell is `view <cell>` (a parameter of the translation)
+            self.uses_view = True
+            return rm['lean'].format(base), OBJ(rm['cls'])
         if bt.startswith('obj:') and self.prog.classes[bt[4:]].get('node') is not None and f.attr not in ('copy',):
             cls = bt[4:]
             is_state = self.prog.classes[cls].get('kind') == 'state'
-            args = self.prog.coerce_args(cls, f.attr, self.with_defaults(cls, f.attr, self.typed_args(e)))
+            args = self.fit_args(cls, f.attr, self.with_defaults(cls, f.attr, self.typed_args(e)))
             info = self.prog.method(cls, f.attr, [t for _, t in args])
             term = f'{self.callee(info)} {" ".join(par(x) for x, _ in args)}'.rstrip() + f' {base}'
             local = isinstance(v, ast.Name) and v.id not in self.py_params and v.id in self.env
@@ -634,10 +692,32 @@ class STr(MTr):
         return out
 
     def callee(self, info):
+        out = info['lean']
         if info.get('mk'):
             self.uses_mk = True
-            return info['lean'] + ' mk'
-        return info['lean']
+            out += ' mk'
+        if info.get('view'):
+            self.uses_view = True
+            out += ' view'
+        if info.get('fuel'):
+            self.uses_fuel = True
+            out += ' fuel'
+        return out
+
+    def fit_args(self, cls, name, args):
+        """declared argument types: Nat -> Int (coerce_args); an OPTIONAL value where the callee is declared to take the plain type
+        (`store_ref(tail)` with `tail` None or a cell): DECLARED - `None` there counts as a raise (`Py.bindO`)"""
+        args = self.prog.coerce_args(cls, name, args)
+        owner, _ = self.prog.find_method(cls, name)
+        want = self.prog.sigs.get((owner, name))
+        if want is None or len(want) != len(args):
+            return args
+        out = []
+        for (v, t), w in zip(args, want):
+            if is_opt(t) and opt_of(t) == w:
+                v, t = self.hoist(v, 'some'), w
+            out.append((v, t))
+        return out
 
     def typed_args(self, e):
         if e.keywords:
@@ -654,7 +734,7 @@ class STr(MTr):
 
     def self_call(self, e, cls, name, r0, args=None):
         args = self.typed_args(e) if args is None else args
-        args = self.prog.coerce_args(cls, name, self.with_defaults(cls, name, args))
+        args = self.fit_args(cls, name, self.with_defaults(cls, name, args))
         info = self.prog.method(cls, name, [t for _, t in args])
         if r0:
             raise Untranslatable('self is read before a mutating call in the same statement')
@@ -736,6 +816,8 @@ class STr(MTr):
                 body = f'let {name} := {t}\n{body}'
             elif kind == 'bindL':
                 body = f'Py.bindL ({t}) self fun {name[0]} {name[1]} =>\n{body}'
+            elif kind == 'bindA':
+                body = f'Py.bindA ({t}) {name[0]} self fun {name[0]} self {name[1]} =>\n{body}'
             else:
                 body = f'if ¬ {t} then (self, none) else\n{body}'
         return body
@@ -762,8 +844,8 @@ class STr(MTr):
             pre = self.take_pre()
             return self.wrap(pre, f'if {c} then\n{par(self.block(rest, kont))}\nelse (self, none)')
         if isinstance(s, ast.Return):
-            if self.loops:
-                raise Untranslatable('return inside a loop')
+            if any(l is not None for l in self.loops):
+                raise Untranslatable('return inside a for loop')
             return self.ret(s)
         if isinstance(s, ast.AnnAssign):
             if s.value is None:
@@ -792,15 +874,31 @@ class STr(MTr):
             return self.if_(s, rest, kont)
         if isinstance(s, ast.For):
             return self.for_(s, rest, kont)
+        if isinstance(s, ast.While):
+            return self.while_(s)         # `while True:` never falls through: the rest of the block is unreachable
         raise Untranslatable(f'statement {type(s).__name__}')
 
     def assign(self, tg, value, rest, kont):
         if isinstance(tg, ast.Name):
             if tg.id in self.py_params and (self.env.get(tg.id) in (BITS, REFS, SLICE) or self.env.get(tg.id, '').startswith('obj:')):
                 raise Untranslatable(f'parameter {tg.id} is rebound')
-            if tg.id in ('self', 'R', 'v') or tg.id in self.prog.classes:
+            if tg.id in ('self', 'R', 'v', 'mk', 'view', 'fuel', 'acc') or tg.id in self.prog.classes:
                 raise Untranslatable(f'local name {tg.id}')
+            if is_self(value) and not self.value_ty and self.decl.get('kind') == 'state':
+                # `x = self`: x is an ALIAS of self until it is rebound to an object of its own (Option σ: none = the alias)
+                if self.env.get(tg.id, f'cur:{self.cls}') != f'cur:{self.cls}' or tg.id in self.py_params:
+                    raise Untranslatable(f'{tg.id} = self')
+                self.env[tg.id] = f'cur:{self.cls}'
+                return f'let {lname(tg.id)} : {self.prog.lean_ty(self.env[tg.id])} := none\n{self.block(rest, kont)}'
+            if self.env.get(tg.id, '').startswith('cur:'):
+                v, t = self.expr(value)
+                if t != OBJ(self.env[tg.id][4:]) or v.startswith('(Py.curOf '):
+                    raise Untranslatable(f'{tg.id} (an alias of self) is rebound to a {t}')
+                pre = self.take_pre()
+                return self.wrap(pre, f'let {lname(tg.id)} : {self.prog.lean_ty(self.env[tg.id])} := some {par(v)}\n{self.block(rest, kont)}')
             v, t = self.stored(self.expr(value))
+            if t.startswith('cur:'):
+                raise Untranslatable('an alias of self is bound to another name')
             if t == SELF or t == NONE and False:
                 raise Untranslatable('a builder is bound to a local name')
             pre = self.take_pre()
@@ -911,55 +1009,179 @@ class STr(MTr):
         if s.orelse or not isinstance(s.target, ast.Name):
             raise Untranslatable('loop shape')
         x = s.target.id
-        if x in self.env or x in LEAN_RESERVED or x in ('self', 'R'):
+        if x in self.env or x in LEAN_RESERVED or x in ('self', 'R', 'acc'):
             raise Untranslatable(f'loop variable {x} shadows a name')
         it = s.iter
+        rev = ''
+        if (isinstance(it, ast.Call) and isinstance(it.func, ast.Name) and it.func.id == 'reversed' and 'reversed' not in self.env
+                and len(it.args) == 1 and not it.keywords):
+            it, rev = it.args[0], '.reverse'
         if (isinstance(it, ast.Call) and isinstance(it.func, ast.Name) and it.func.id == 'range' and 'range' not in self.env
-                and not it.keywords and 1 <= len(it.args) <= 2):
-            args = [self.index_nat(a, 'range argument') for a in it.args]
-            xs = f'(List.range {args[0]})' if len(args) == 1 else f"(List.range' {args[0]} ({args[1]} - {args[0]}))"
+                and not it.keywords and 1 <= len(it.args) <= 3):
+            if len(it.args) == 3:
+                st = it.args[2]
+                if not (isinstance(st, ast.Constant) and isinstance(st.value, int) and not isinstance(st.value, bool) and st.value > 0):
+                    raise Untranslatable('range step is not a positive int literal')
+                a, b = [self.index_nat(z, 'range argument') for z in it.args[:2]]
+                xs = f'(Py.rangeStep {a} {b} {st.value})'
+            else:
+                args = [self.index_nat(a, 'range argument') for a in it.args]
+                xs = f'(List.range {args[0]})' if len(args) == 1 else f"(List.range' {args[0]} ({args[1]} - {args[0]}))"
             xt = NAT
         else:
+            if rev:
+                raise Untranslatable('reversed(..) of something else than a range')
             xs, lt = self.expr(it)
             if lt != REFS:
                 raise Untranslatable(f'loop over a {lt}')
             xt = REF
+        xs += rev
         pre = self.take_pre()
+        carried = []
         for n in ast.walk(ast.Module(body=list(s.body), type_ignores=[])):
-            if isinstance(n, ast.Name) and isinstance(n.ctx, ast.Store) and n.id in self.env:
-                raise Untranslatable(f'the loop body assigns the outer local {n.id}')
+            if isinstance(n, ast.Name) and isinstance(n.ctx, ast.Store) and n.id in self.env and n.id not in carried:
+                carried.append(n.id)
+        if len(carried) > 1:
+            raise Untranslatable(f'the loop body assigns several outer locals {carried}')
         env0 = dict(self.env)
-        self.env[x] = xt
-        self.loops.append(x)
+        flags0 = dict(self.flags)
+        if not carried:
+            self.env[x] = xt
+            self.loops.append(x)
+            try:
+                body = self.block(list(s.body), lambda: '(self, some ())')
+            finally:
+                self.loops.pop()
+            self.env = dict(env0)
+            r = self.block(rest, kont)
+            return self.wrap(pre, f'Py.bindS (Py.forS {xs} self (fun ({lname(x)} : {self.prog.lean_ty(xt)}) self =>\n{indent(body)})) fun self _u =>\n{r}')
+        # ONE loop-carried local: its type is the type before the loop, or (a `None` before the loop, a value in the body) Option of it
+        c = carried[0]
+        if c in self.py_params or self.env[c] in (POISON, BOOL, SLICE) or self.env[c].startswith('cur:'):
+            raise Untranslatable(f'the loop body assigns {c}')
+
+        def fit(v, t, ct):
+            if t == ct:
+                return v
+            if is_opt(ct) and t == opt_of(ct):
+                return f'(some {v})'
+            if is_opt(ct) and t == NONE:
+                return 'none'
+            return None
+
+        def attempt(ct):
+            seen = []
+
+            def end():
+                t = self.env[c]
+                v = fit(lname(c), t, ct)
+                if v is None:
+                    seen.append(t)
+                    return '(self, none)'
+                return f'(self, some {v})'
+            self.env = dict(env0)
+            self.flags = dict(flags0)
+            self.flags.pop(c, None)
+            self.env[x] = xt
+            self.env[c] = ct
+            self.loops.append(x)
+            try:
+                body = self.block(list(s.body), end)
+            finally:
+                self.loops.pop()
+            return body, seen
+        fresh0 = self.fresh
+        ct = env0[c]
+        body, seen = attempt(ct)
+        if seen:
+            ts = set(seen)
+            if ct == NONE and len(ts) == 1 and not is_opt(seen[0]) and seen[0] not in (NONE, POISON, BOOL, SLICE, SELF):
+                ct = OPT(seen[0])
+                self.fresh = fresh0
+                body, seen = attempt(ct)
+            if seen:
+                raise Untranslatable(f'the loop-carried local {c} changes its type ({env0[c]} -> {sorted(set(seen))})')
+        init = fit(lname(c), env0[c], ct)
+        self.env = dict(env0)
+        self.flags = dict(flags0)
+        self.flags.pop(c, None)
+        self.env[c] = ct
+        r = self.block(rest, kont)
+        lt = self.prog.lean_ty
+        return self.wrap(pre, f'Py.bindS (Py.forL {xs} self ({init} : {lt(ct)}) (fun ({lname(x)} : {lt(xt)}) self ({lname(c)} : {lt(ct)}) =>\n{indent(body)})) '
+                              f'fun self {lname(c)} =>\n{r}')
+
+    def while_(self, s):
+        """`while True:` without break / continue / else: the body ends the method (`return`, a raise) or an iteration; the locals it
+        rebinds are loop-carried.  `fuel` bounds the number of iterations (declared; exhausted = raise)."""
+        if s.orelse or not (isinstance(s.test, ast.Constant) and s.test.value is True):
+            raise Untranslatable('while loop other than `while True:`')
+        if self.loops:
+            raise Untranslatable('nested while loop')
+        carried = []
+        for n in ast.walk(ast.Module(body=list(s.body), type_ignores=[])):
+            if isinstance(n, ast.Name) and isinstance(n.ctx, ast.Store):
+                if n.id not in self.env:
+                    raise Untranslatable(f'the loop body binds the new local {n.id}')
+                if n.id not in carried:
+                    carried.append(n.id)
+        for c in carried:
+            if c in self.py_params or self.env[c] in (POISON, BOOL, SLICE, NONE) or is_opt(self.env[c]):
+                raise Untranslatable(f'the loop body assigns {c}')
+        if not carried:
+            raise Untranslatable('`while True:` without loop-carried locals')
+        env0 = dict(self.env)
+        lt = self.prog.lean_ty
+        tys = [lt(self.env[c]) for c in carried]
+        tup = '(' + ', '.join(lname(c) for c in carried) + ')' if len(carried) > 1 else lname(carried[0])
+        ty = ' × '.join(tpar(t) for t in tys)
+        if len(carried) == 1:
+            lets = f'let {lname(carried[0])} := acc\n'
+        else:
+            proj = lambda i: 'acc' + ''.join(['.2'] * i) + ('.1' if i < len(carried) - 1 else '')
+            lets = ''.join(f'let {lname(c)} := {proj(i)}\n' for i, c in enumerate(carried))
+
+        def end():
+            for c in carried:
+                if self.env[c] != env0[c]:
+                    raise Untranslatable(f'the loop-carried local {c} changes its type ({env0[c]} -> {self.env[c]})')
+            return f'(self, some (Sum.inl {tup}))'
+        self.uses_fuel = True
+        self.loops.append(None)
+        self.whiles += 1
         try:
-            body = self.block(list(s.body), lambda: '(self, some ())')
+            body = self.block(list(s.body), end)
         finally:
+            self.whiles -= 1
             self.loops.pop()
         self.env = dict(env0)
-        r = self.block(rest, kont)
-        return self.wrap(pre, f'Py.bindS (Py.forS {xs} self (fun ({lname(x)} : {self.prog.lean_ty(xt)}) self =>\n{indent(body)})) fun self _u =>\n{r}')
+        return f'Py.whileS fuel self ({tup} : {ty}) (fun self (acc : {ty}) =>\n{indent(lets + body)})'
+
+    def fin(self, v):
+        """the method returns `v` (inside a `while True`: that leaves the loop)"""
+        return f'(self, some (Sum.inr {v}))' if self.whiles else f'(self, some {v})'
 
     def ret(self, s):
         if s.value is None or (isinstance(s.value, ast.Constant) and s.value.value is None):
             self.ret_types.append(NONE)
             if self.force_ret and self.force_ret.startswith('union:'):
-                return f'(self, some {self.prog.externs["unions"][self.force_ret[6:]]["of"][NONE]})'
+                return self.fin(self.prog.externs["unions"][self.force_ret[6:]]["of"][NONE])
             if self.force_ret and is_opt(self.force_ret):
-                return '(self, some none)'
-            return '(self, some ())'
+                return self.fin('none')
+            return self.fin('()')
         if is_self(s.value) and not self.value_ty:
             self.ret_types.append(SELF)
-            return '(self, some ())'
+            return self.fin('()')
         v, t = self.stored(self.expr(s.value))
         pre = self.take_pre()
         self.ret_types.append(t)
         if t == SELF or (t == NONE and not self.force_ret):
-            return self.wrap(pre, '(self, some ())')
+            return self.wrap(pre, self.fin('()'))
         if self.force_ret and self.force_ret.startswith('union:') and t != self.force_ret:
             inj = self.prog.externs['unions'][self.force_ret[6:]]['of'].get(t)
             if inj is None:
                 raise Untranslatable(f'return of a {t} in a method returning {self.force_ret}')
-            return self.wrap(pre, f'(self, some {par(inj if t == NONE else inj + " " + par(v))})')
+            return self.wrap(pre, self.fin(par(inj if t == NONE else inj + " " + par(v))))
         if self.force_ret and t != self.force_ret:
             if (t, self.force_ret) == (NAT, INT):
                 v = f'(({v} : Nat) : Int)'
@@ -969,7 +1191,7 @@ class STr(MTr):
                 v = f'(some {par(v)})'
             else:
                 raise Untranslatable(f'returns of different types ({t}, {self.force_ret})')
-        return self.wrap(pre, f'(self, some {par(v)})')
+        return self.wrap(pre, self.fin(par(v)))
 
     def union_of(self, kinds):
         for name, u in (self.prog.externs.get('unions') or {}).items():
@@ -1009,5 +1231,10 @@ class STr(MTr):
         st = self.state_ty()
         doc = pybytes.doc_of(self.fn, f'{self.decl.get("src", self.prog.src)}: {self.cls}.{self.fn.name}')
         mk = f'(mk : {self.prog.externs["mk"]}) ' if self.uses_mk else ''
+        if self.uses_view:
+            mk += f'(view : {self.prog.externs["view"]}) '
+        if self.uses_fuel:
+            mk += '(fuel : Nat) '
         text = f'{doc}def {self.lean} {mk}{ps + " " if ps else ""}(self : {st}) : {st} × Option {tpar(self.prog.lean_ty(rt))} :=\n{indent(body)}\n'
-        return dict(lean=self.lean, params=self.params, ret=rt, text=text, retry=retry, mk=self.uses_mk, mutates=self.mutates)
+        return dict(lean=self.lean, params=self.params, ret=rt, text=text, retry=retry, mk=self.uses_mk, view=self.uses_view, fuel=self.uses_fuel,
+                    mutates=self.mutates)
